@@ -34,7 +34,7 @@ def forced_runs(sc_files, mode, fmt_of, schedule=None, trace=False, nthreads=2, 
     return lines, obs["code"], ops, infeasible, sc
 
 def run(res):
-    t_ok, t_log = c05.rs2v()
+    t_ok, t_log = c05.rs2v("exit_ops")
     proof = proof_stage(res, "C19", extra_obligations=2) if t_ok else dict(ok=False, discharged=0, log=t_log, broken_at="rs2v: " + t_log[-300:])
     if not t_ok: res.coverage.update(obligations=2, discharged=0, checker_cmd="rs2v", trusted_base=list(TRUSTED_BASE))
     build_ml(); build_cli()
